@@ -373,3 +373,18 @@ Corollary other_files_irrelevant outdir fresh old old' fn lines :
   slookup fn (fst (regen outdir old fresh)) = slookup fn (fst (regen outdir old' fresh))
   /\ slookup (lost_name fn) (fst (regen outdir old fresh)) = slookup (lost_name fn) (fst (regen outdir old' fresh)).
 Proof. intros Hn Hl Ho. exact (confined outdir fresh fresh old old' fn lines Hn Hn Hl Hl Ho). Qed.
+
+(* C03, the negative half for the directory: when no code of [fn] is lost (or [fn] did not exist before), NO LostCode
+   file is written for it -- an existing reader of the directory never sees a spurious <fn>.LostCode.txt. *)
+Corollary nothing_lost_no_lostfile outdir old fresh fn lines :
+  names_ok (keys fresh) -> slookup fn fresh = Some lines ->
+  match old fn with
+  | Readable c => snd (regen_file (join outdir fn) lines c) = []
+  | Missing => True
+  | Unreadable => True
+  end ->
+  slookup (lost_name fn) (fst (regen outdir old fresh)) = None.
+Proof.
+  intros Hn Hl Ho. destruct (regen_lookup outdir old fresh fn lines Hn Hl) as [_ H2]. cbv zeta in H2. rewrite H2.
+  destruct (old fn) as [| |c]; [reflexivity|reflexivity|]. rewrite Ho. reflexivity.
+Qed.
